@@ -185,6 +185,7 @@ ied_check_small(const uint8_t r[32], const uint8_t h[32], const uint8_t pk[32], 
 }
 #endif
 
+#ifndef REPLAY
 /* ---- Ristretto255 encoding layer (abstract): decode / validity / encode / hash-to-group ---- */
 e256_t        __CPROVER_uninterpreted_ris_dec(e256_t s);
 unsigned char __CPROVER_uninterpreted_ris_dec_ok(e256_t s);
@@ -210,3 +211,17 @@ ied_ris_addsub_bytes(uint8_t out[32], const uint8_t p_enc[32], const uint8_t q_e
 void ied_ris_scalarmult_bytes(uint8_t out[32], const uint8_t t[32], const uint8_t p_enc[32]) { u256(out, __CPROVER_uninterpreted_ris_enc(__CPROVER_uninterpreted_ge_mult(p256(t), __CPROVER_uninterpreted_ris_dec(p256(p_enc))))); }
 void ied_ris_base_mult_bytes(uint8_t out[32], const uint8_t t[32]) { u256(out, __CPROVER_uninterpreted_ris_enc(__CPROVER_uninterpreted_ge_base(p256(t)))); }
 void ied_ris_from_hash(uint8_t s[32], const uint8_t h[64]) { u256(s, __CPROVER_uninterpreted_ris_from_hash(p512(h))); }
+#else
+int  ied_ris_decode_ok(const uint8_t s[32]) { ge25519_p3 P; return ristretto255_frombytes(&P, s) == 0; }
+void
+ied_ris_addsub_bytes(uint8_t out[32], const uint8_t p_enc[32], const uint8_t q_enc[32], int sub)
+{
+    ge25519_p3 P, Q, R;
+    ristretto255_frombytes(&P, p_enc); ristretto255_frombytes(&Q, q_enc);
+    if (sub) ge25519_p3_sub(&R, &P, &Q); else ge25519_p3_add(&R, &P, &Q);
+    ristretto255_p3_tobytes(out, &R);
+}
+void ied_ris_scalarmult_bytes(uint8_t out[32], const uint8_t t[32], const uint8_t p_enc[32]) { ge25519_p3 P, Q; ristretto255_frombytes(&P, p_enc); ge25519_scalarmult(&Q, t, &P); ristretto255_p3_tobytes(out, &Q); }
+void ied_ris_base_mult_bytes(uint8_t out[32], const uint8_t t[32]) { ge25519_p3 Q; ge25519_scalarmult_base(&Q, t); ristretto255_p3_tobytes(out, &Q); }
+void ied_ris_from_hash(uint8_t s[32], const uint8_t h[64]) { ristretto255_from_hash(s, h); }
+#endif
